@@ -3,13 +3,99 @@ Observation / monitors: broker-side byte stream (wire.py), returned mids, comple
 detector, exceptions escaping threads, select() timeouts consumed (stall)."""
 from __future__ import annotations
 
+import collections
+import os
 import random
+import subprocess
+import sys
 
 import sched as S
 import wire
-from common import hx
+import world as WORLD
+from common import MODEL_EXE, hx
 from harness import PROTO, V2
 from world import World, name_locks, pc, raw
+
+
+class TClient(pc.Client):
+    """the real Client; `_last_mid` is observed through a data descriptor (reads and writes become events)"""
+    EV = None
+
+    @property
+    def _last_mid(self):
+        v = self.__dict__["_lm"]
+        if TClient.EV is not None:
+            TClient.EV("mid", "rd", v)
+        return v
+
+    @_last_mid.setter
+    def _last_mid(self, v):
+        self.__dict__["_lm"] = v
+        if TClient.EV is not None:
+            TClient.EV("mid", "wr", v)
+
+
+class LogDeque(collections.deque):
+    """`_out_packet` with its operations reported as events"""
+    EV = None
+    NEXT = [1]
+
+    def append(self, p):
+        if "vid" not in p:
+            if (p["command"] & 0xF0) == 0x10:
+                p["vid"] = 0
+            else:
+                p["vid"] = LogDeque.NEXT[0]
+                LogDeque.NEXT[0] += 1
+        super().append(p)
+        if LogDeque.EV is not None:
+            LogDeque.EV("wk", "append", p["vid"], p["to_process"])
+
+    def popleft(self):
+        try:
+            p = super().popleft()
+        except IndexError:
+            if LogDeque.EV is not None:
+                LogDeque.EV("wk", "popleft")
+            raise
+        if LogDeque.EV is not None:
+            LogDeque.EV("wk", "popleft")
+        return p
+
+    def appendleft(self, p):
+        super().appendleft(p)
+        if LogDeque.EV is not None:
+            LogDeque.EV("wk", "appendleft")
+
+    def clear(self):
+        super().clear()
+        if LogDeque.EV is not None:
+            LogDeque.EV("wk", "clear")
+
+    def __len__(self):
+        n = super().__len__()
+        if LogDeque.EV is not None:
+            f = sys._getframe(1)
+            if f.f_code.co_name == "want_write" and f.f_back is not None and f.f_back.f_code.co_name == "_loop":
+                LogDeque.EV("wk", "len")
+        return n
+
+
+def replay_model(events):
+    """pipe the event lines through the Lean models; return the first mismatch (or None)"""
+    if not os.path.exists(MODEL_EXE):
+        return "model executable missing"
+    lines = [e[0] for e in events]
+    p = subprocess.run([MODEL_EXE, "threads"], input="\n".join(lines) + "\n", capture_output=True, text=True, timeout=120)
+    if p.returncode != 0:
+        return "pahomodel threads failed: " + p.stderr[:200]
+    out = p.stdout.split("\n")
+    for i, (line, real) in enumerate(events):
+        mo = out[i] if i < len(out) else "<missing>"
+        if mo != real:
+            ctx = " | ".join(l for l, _ in events[max(0, i - 6):i])
+            return f"event #{i} `{line}`: real <{real}> model <{mo}> (after: {ctx})"
+    return None
 
 
 class AutoBroker:
@@ -69,10 +155,80 @@ def run_scenario(line):
     S.SLock.SCHED = sch
     w.sched = sch
     br = AutoBroker(w, proto)
-    w.tx_hook = br.on_tx
-    c = pc.Client(V2, client_id="cid", protocol=PROTO[proto])
+
+    def tx_hook(sock, data):
+        if TClient.EV is not None and len(data):
+            TClient.EV("wk", "send", len(data))
+        br.on_tx(sock, data)
+    w.tx_hook = tx_hook
+    gate = a.get("gate", "0") == "1"
+    part = int(a.get("part", "0"))
+    LogDeque.NEXT[0] = 1
+    c = TClient(V2, client_id="cid", protocol=PROTO[proto])
     name_locks(c)
+    c._out_packet = LogDeque()
     c.max_inflight_messages_set(int(a.get("N", 20)))
+    nthreads = 2 + len([p for p in a.get("msgs", "1").split(";")])
+    state = {"wire": 0, "sec": {}}       # bytes sent since the last clear; per-thread mid-section state
+
+    def observer(group, t, words):
+        if group == "wk":
+            if words[0] == "clear":
+                state["wire"] = 0
+            q = ",".join(f"{p['vid']}:{p['pos']}" for p in collections.deque.__iter__(c._out_packet)) or "-"
+            pipe = c._sockpairR.pipe.count if c._sockpairR is not None else 0
+            return f"ok q={q} pipe={pipe} wire={state['wire']}"
+        if group == "mid" and words[0] == "leave":
+            sec = state["sec"].get(t, {})
+            return f"ok last={c.__dict__['_lm']} ret={sec.get('rd', 0)}"
+        return "ok"
+    sch.observer = observer
+    sch.events.append(("wk init 1", "ok"))
+    sch.events.append((f"lk init {nthreads}", "ok"))
+    sch.events.append((f"mid init {c.__dict__['_lm']}", "ok"))
+
+    def EV(group, *words):
+        if sch.me() is None:
+            return
+        t = sch.tid()
+        if group == "mid":
+            # attribute accesses -> model actions: first read = load, first write = store (inside the section)
+            sec = state["sec"].setdefault(t, {})
+            if words[0] == "rd":
+                sec["rd"] = words[1]
+                if not sec.get("loaded"):
+                    sec["loaded"] = True
+                    sch.ev("mid", "load")
+            elif words[0] == "wr":
+                if not sec.get("stored"):
+                    sec["stored"] = True
+                    sch.ev("mid", "store")
+            return
+        if group == "wk" and words[0] == "send":
+            state["wire"] += words[1]
+        sch.ev(group, *words)
+    TClient.EV = EV
+    LogDeque.EV = EV
+    WORLD.EVHOOK = lambda *w: EV("wk", *w)
+    _orig_ev = sch.ev
+
+    def ev_wrap(*words):
+        # a new mid section starts at `enter`
+        if words[0] == "mid" and words[1] == "enter":
+            state["sec"][sch.tid()] = {}
+        _orig_ev(*words)
+    sch.ev = ev_wrap
+    if part:
+        _ons = w._new_socket
+
+        def new_socket():
+            so = _ons()
+            for _ in range(400):
+                so.outscript.append(("accept", 1 + rng.randrange(part)))
+            return so
+        w._new_socket = new_socket
+        pc.socket.create_connection = lambda *aa, **kw: new_socket()
+    started = {"v": False}
     results = {}          # (pub index, msg index) -> (rc, mid, info, qos)
     on_pub = []
     c.on_publish = lambda cl, ud, mid, rc, props: on_pub.append(mid)
@@ -83,6 +239,8 @@ def run_scenario(line):
 
     def publisher(i):
         def run():
+            if gate:
+                sch.block_until(lambda: started["v"], "loop_start() returned")
             for j, q in enumerate(progs[i]):
                 try:
                     info = c.publish(f"t/{i}/{j}", bytes([65 + i, 48 + j]) * 3, q)
@@ -96,6 +254,7 @@ def run_scenario(line):
         try:
             c.connect("broker", 1883, 60)
             c.loop_start()
+            started["v"] = True
             if early:
                 for _ in range(rng.randint(0, 400)):
                     sch.yield_point("ctl-wait")
@@ -116,6 +275,15 @@ def run_scenario(line):
     failed = sch.run("ctl")
     S.SLock.SCHED = None
     w.sched = None
+    TClient.EV = None
+    LogDeque.EV = None
+    WORLD.EVHOOK = None
+    events = list(sch.events)
+    if not gate:
+        # publishers running before loop_start() may write directly (`_thread is None`): two writers, outside the
+        # hand-off model - only the id generator and the lock order are replayed
+        events = [e for e in events if not e[0].startswith("wk ")]
+    mismatch = replay_model(events) if failed is None else None
     # ---- canonical observation
     mids = [r[1] for r in results.values()]
     obs = {
@@ -134,6 +302,8 @@ def run_scenario(line):
         "qos": {f"{k[0]}.{k[1]}": v[3] for k, v in results.items()},
         "early": early,
         "clock_advanced": w.clock.ms - 1_000_000,
+        "model_mismatch": mismatch,
+        "nevents": len(events),
     }
     return obs
 
@@ -188,7 +358,8 @@ class ThreadStream:
             npub = rng.choice([1, 2, 2, 3])
             msgs = ";".join(",".join(str(rng.choice([0, 1, 2])) for _ in range(rng.randint(1, 3))) for _ in range(npub))
             case.append(f"thr seed={rng.randrange(10**6)} policy={rng.choice(['random', 'random', 'pct'])} sw={rng.choice(['0.1', '0.3', '0.6'])} "
-                        f"msgs={msgs} N={rng.choice([1, 2, 20])} early={int(rng.random() < 0.3)} proto={rng.choice([4, 5])}")
+                        f"msgs={msgs} N={rng.choice([1, 2, 20])} early={int(rng.random() < 0.3)} proto={rng.choice([4, 5])} "
+                        f"gate={int(rng.random() < 0.6)} part={rng.choice([0, 0, 3, 9])}")
         return case
 
     def real(self, case):
@@ -204,6 +375,15 @@ class ThreadStream:
         return hits
 
     monitors = {"C07": monitor_C07}
+
+    def correspondence(self, case, obs):
+        import json
+        out = []
+        for line, o in zip(case, obs):
+            d = json.loads(o)
+            if d.get("model_mismatch"):
+                out.append(f"{line}: {d['model_mismatch']}")
+        return out
 
     def features(self, case, obs):
         import json
